@@ -1282,6 +1282,118 @@ func (x *gen) caseVariantCells() {
 	}
 }
 
+// titleOps: strings.Title on ASCII strings with every kind of word boundary (blank, hyphen,
+// apostrophe, digit, underscore, punctuation, control characters), compared with the model's
+// transcription; both sides also apply it twice (idempotence).
+func (x *gen) titleOps(n int) {
+	alphabet := "abzABZ019_ -'.,;:!?/\\\"()[]{}<>|@#$%^&*+=~`\t\n\r\x00\x1f\x7f"
+	fixed := []string{"", "a", "don't", "x-ray", "w1x", "a_b", "4ever", "o'neil", "hello world", " lead", "trail ", "a  b", "A", "mcDonald", "_x", "1a", "a1b2", "x.y", "tab\tin", "q\x00r"}
+	for _, w := range fixed {
+		x.emit("title w=%s", encCps(w))
+	}
+	for i := 0; i < n; i++ {
+		l := 1 + x.g.intn(9)
+		var b strings.Builder
+		for j := 0; j < l; j++ {
+			b.WriteByte(alphabet[x.g.intn(len(alphabet))])
+		}
+		x.emit("title w=%s", encCps(b.String()))
+	}
+}
+
+// bigListOps: lists of hundreds and thousands of distinct words — sizes around the powers of two,
+// every residue modulo 4 and 8 — with a capitalised twin, a duplicate and a title-fixed word placed
+// first, in the middle and last. Whatever an implementation does differently for long lists
+// (chunks, workers, another data structure), the kept set is the same function of the input.
+func (x *gen) bigListOps() {
+	sizes := []int{61, 66, 131, 258, 517, 1026, 1031, 2053}
+	if x.thorough() {
+		sizes = append(sizes, 1024, 1025, 1027, 4098, 4103)
+	}
+	for _, n := range sizes {
+		var seq []string
+		for i := 0; i < n; i++ {
+			seq = append(seq, fmt.Sprintf("w%04dx", i))
+		}
+		variants := [][]string{
+			append(append([]string{"Alpha"}, seq...), "alpha"),
+			append(append([]string{"alpha", "w0003x"}, seq...), "Alpha", "beta", "Beta"),
+			append(append(append([]string{}, seq[:n/2]...), "Alpha", "4", "alpha"), seq[n/2:]...),
+		}
+		ws := variants[x.g.intn(len(variants))]
+		x.emit("wlnew words=%s titles=%s reps=1 show=0", encList(ws), encList(wordTitles(ws)))
+	}
+}
+
+// typeByteBlock: a full index carries a type byte per token, and a type byte is any byte. Every
+// value, in an index that fits the string, in one whose first token is too long, and in one whose
+// second token is too long: tokens or an error, never a panic.
+func (x *gen) typeByteBlock() {
+	pw := encHex([]byte("ab"))
+	for t := 0; t < 256; t++ {
+		x.emit("tokenize pw=%s idx=%s", pw, encHex([]byte{3, 1, byte(t), 1, byte(t)}))
+		x.emit("tokenize pw=%s idx=%s", pw, encHex([]byte{3, 5, byte(t)}))
+		x.emit("tokenize pw=%s idx=%s", pw, encHex([]byte{3, 1, byte(255 - t), 5, byte(t)}))
+	}
+	// every kind byte on a short and on an exact index
+	for k := 0; k < 256; k++ {
+		x.emit("tokenize pw=%s idx=%s", pw, encHex([]byte{byte(k), 1, 1}))
+		x.emit("tokenize pw=%s idx=%s", pw, encHex([]byte{byte(k), 3}))
+	}
+}
+
+// longGenerationOps: generation at lengths of thousands and tens of thousands of words (a
+// capacity hint, a chunk size, a 16-bit counter are all exceeded): Length atoms, Length-1
+// separators, the recipe's entropy.
+func (x *gen) longGenerationOps() {
+	ws := []string{"a", "b"}
+	lens := []int{1000, 4097, 16385}
+	if x.thorough() {
+		lens = append(lens, 32769, 65537)
+	}
+	for _, L := range lens {
+		t := make([]uint32, L+4)
+		for i := range t {
+			t[i] = uint32((i / 3) % 2)
+		}
+		sep := []string{"char:45", "const:46"}[L%2]
+		x.emit("wlgen words=%s titles=%s L=%d sep=%s cap=%s tape=%s", encList(ws), encList(wordTitles(ws)), L, sep, encCps("none"), encWords(t))
+	}
+	var r recipeSpec
+	r.L, r.ac = 16385, "ab"
+	t := make([]uint32, r.L+4)
+	for i := range t {
+		t[i] = uint32((i / 5) % 2)
+	}
+	x.emit("chargen r=%s tape=%s", r.enc(), encWords(t))
+}
+
+// defaultBudgetOps: the documented default budget — 200 attempts — as the library itself runs it
+// (no T=): 200 failing candidates and then the error, not one draw more; and at a Length of 200
+// and more a first failing candidate is followed by a second attempt.
+func (x *gen) defaultBudgetOps() {
+	var r recipeSpec
+	r.L, r.ac, r.rs = 2, "x", []string{"a"}
+	t := make([]uint32, 2*205)
+	for i := range t {
+		t[i] = 1 // sorted alphabet a x: every candidate is xx
+	}
+	x.emit("chargen r=%s tape=%s", r.enc(), encWords(t))
+	for _, L := range []int{198, 199, 200, 201, 255} {
+		var q recipeSpec
+		q.L, q.ac, q.rs = L, "x", []string{"a"}
+		tt := make([]uint32, 2*L+4)
+		for i := range tt {
+			if i < L {
+				tt[i] = 1 // first candidate: all x
+			} else {
+				tt[i] = 0 // second: all a
+			}
+		}
+		x.emit("chargen r=%s tape=%s", q.enc(), encWords(tt))
+	}
+}
+
 func (x *gen) wlnewOp(reps int) {
 	words := x.wordList(true)
 	if x.g.chance(3) {
@@ -1950,7 +2062,7 @@ func (x *gen) faultOps() {
 	// the source fails once — with an error that calls itself temporary, a timeout, an interrupted
 	// system call, a wrapped one — and would deliver again afterwards: fail closed all the same
 	for k := 0; k <= len(t) && k <= 6; k++ {
-		line(t[:k], fmt.Sprintf(" resume=%d:%s", 1+x.g.intn(8), encWords(x.tape(n, r.L*3, 0))))
+		line(t[:k], fmt.Sprintf(" resume=%d:%s", x.g.intn(len(errorKinds)), encWords(x.tape(n, r.L*3, 0))))
 	}
 	words := x.wordList(false)
 	L := 1 + x.g.intn(3)
@@ -1981,7 +2093,7 @@ func (x *gen) faultOps() {
 		wline(wt[:k], e)
 	}
 	for k := 0; k <= len(wt) && k <= 4; k++ {
-		wline(wt[:k], fmt.Sprintf(" resume=%d:%s", 1+x.g.intn(8), encWords(x.wlTape(len(words), L, sep, 0))))
+		wline(wt[:k], fmt.Sprintf(" resume=%d:%s", x.g.intn(len(errorKinds)), encWords(x.wlTape(len(words), L, sep, 0))))
 	}
 }
 
@@ -2013,6 +2125,7 @@ func generate(prop, tier string, seed uint64) []string {
 		rep(12, x.oneCellOps)
 		x.lookalikeBlock(true)
 	case "C02":
+		rep(30, func() { x.chargenOp(x.recipe(1), fmt.Sprintf(" reconf=%d", 1+x.g.intn(4))) })
 		x.bigAlphabetBlock()
 		x.metaCharBlock()
 		x.chunkedOps(15)
@@ -2024,6 +2137,7 @@ func generate(prop, tier string, seed uint64) []string {
 		rep(400, func() { x.chargenOp(x.recipe(1), "") })
 		rep(300, func() { x.chargenOp(x.recipe(0), "") })
 	case "C03":
+		rep(40, func() { x.chargenOp(x.recipe(x.g.intn(4)), fmt.Sprintf(" reconf=%d", 1+x.g.intn(4))) })
 		x.bigAlphabetBlock()
 		x.metaCharBlock()
 		x.soleWitnessOps()
@@ -2050,6 +2164,9 @@ func generate(prop, tier string, seed uint64) []string {
 		x.builtinListOps()
 		rep(700, func() { x.wlgenOp("wlgen", "") })
 	case "C05":
+		rep(30, func() { x.wlgenOp("wlgen", fmt.Sprintf(" reconf=%d", 1+x.g.intn(4))) })
+		x.longGenerationOps()
+		x.titleOps(150)
 		rep(12, x.oneCellOps)
 		rep(1500, func() { x.wlgenOp("wlgen", "") })
 		x.emit("wlgen words=_ titles=_ L=3 sep=char:_ cap=%s tape=0.0.0", encCps("none")) // D8
@@ -2089,6 +2206,7 @@ func generate(prop, tier string, seed uint64) []string {
 			}
 		}
 		x.lookalikeBlock(false)
+		x.titleOps(150)
 		rep(500, func() { x.wlnewOp(8 * scale) })
 		rep(500, func() { x.wlgenOp("wlent", "") })
 	case "C09":
@@ -2096,8 +2214,16 @@ func generate(prop, tier string, seed uint64) []string {
 		rep(30, func() { x.chargenOp(x.recipe(x.g.intn(4)), fmt.Sprintf(" reenter=%d", 1+x.g.intn(6))) })
 		rep(30, func() { x.wlgenOp("wlgen", fmt.Sprintf(" reenter=%d", 1+x.g.intn(6))) })
 		rep(40, x.faultOps)
+		// every error kind once, at the first and at a later read
+		for k := range errorKinds {
+			x.emit("chargen r=4/0/0/0/97.98.99/-/_ T=3 fr=1:1 tape=_ resume=%d:1.2.0.1.2.0", k)
+			x.emit("chargen r=4/0/0/0/97.98.99/-/_ T=3 fr=1:1 tape=1.2 resume=%d:1.2.0.1.2.0", k)
+			x.emit("wlgen words=%s titles=%s L=3 sep=preset:d1 cap=%s tape=1.2.0 resume=%d:1.2.0.1.2.0", encList([]string{"uno", "dos", "tres"}), encList([]string{"Uno", "Dos", "Tres"}), encCps("none"), k)
+		}
 		rep(600, x.sourceOp)
 	case "C10":
+		x.bigListOps()
+		x.titleOps(300)
 		x.lookalikeBlock(false)
 		x.builtinListOps()
 		rep(1200, func() { x.wlnewOp(4) })
@@ -2115,9 +2241,11 @@ func generate(prop, tier string, seed uint64) []string {
 		x.emit("wlgen words=%s titles=%s L=3 sep=char:45 cap=%s tape=0.0.0.0.0.0", encList([]string{"solo"}), encList([]string{"Solo"}), encCps("none"))
 		x.emit("wlgen words=%s titles=%s L=1 sep=preset:none cap=%s tape=0.0.0.0", encList([]string{"solo"}), encList([]string{"Solo"}), encCps("first"))
 	case "C12":
+		x.typeByteBlock()
 		rep(3000, x.tokenizeOp)
 		rep(800, x.explodeOp)
 	case "C13":
+		x.defaultBudgetOps()
 		x.emptyWordBlock()
 		x.metaCharBlock()
 		x.thirteenSetsOps()
@@ -2133,6 +2261,8 @@ func generate(prop, tier string, seed uint64) []string {
 		x.emit("wlgen words=@zero L=2 sep=preset:d1 cap=%s tape=1.2.3", encCps("random"))
 		x.emit("chargen r=0/0/0/0/_/-/_ tape=1.2.3")
 	case "C14":
+		rep(20, func() { x.chargenOp(x.recipe(x.g.intn(4)), fmt.Sprintf(" reconf=%d", 1+x.g.intn(4))) })
+		rep(20, func() { x.wlgenOp("wlgen", fmt.Sprintf(" reconf=%d", 1+x.g.intn(4))) })
 		// the sequential behaviour of what the racer calls concurrently
 		rep(200, func() { x.chargenOp(x.recipe(x.g.intn(4)), "") })
 		rep(150, func() { x.charinfoOp(x.recipe(x.g.intn(4))) })
@@ -2157,12 +2287,15 @@ func generate(prop, tier string, seed uint64) []string {
 		rep(60, func() { x.chargenOp(x.recipe(x.g.intn(4)), fmt.Sprintf(" reenter=%d", 1+x.g.intn(6))) })
 		rep(60, func() { x.wlgenOp("wlgen", fmt.Sprintf(" reenter=%d", 1+x.g.intn(6))) })
 		rep(60, func() { x.historyOps(25) })
+		rep(30, func() { x.chargenOp(x.recipe(x.g.intn(4)), fmt.Sprintf(" reconf=%d", 1+x.g.intn(4))) })
+		rep(30, func() { x.wlgenOp("wlgen", fmt.Sprintf(" reconf=%d", 1+x.g.intn(4))) })
 		if x.thorough() {
 			x.slowSourceOps([]int{2500, 6000, 12000})
 		} else {
 			x.slowSourceOps([]int{2500})
 		}
 	case "C16":
+		x.defaultBudgetOps()
 		x.builtinListOps()
 		x.reassignOps()
 		// the bounded draw at the sizes of the preset alphabets (10, 7, 6, 16) and of the default
